@@ -26,7 +26,7 @@ CONFIG = {
              'half of (b) the owner makes the straggler\'s very call before forking, so late calls REPEAT observations the '
              'same instance already recorded (a memo of recorded observations must not bypass the fence); evaluations = late calls + schedules judged; '
              'distinct_nontrivial = distinct (owner kind, method, outcome, recorded?) x switch sequences'),
-    'gates': ['focused_lock_pairs', 'base_exception_late_calls', 'primed_straggler_runs', 'complex_stragglers', 'complex_straggler_after_close', 'late_calls', 'root_late_calls', 'straggler_schedules', 'straggler_ok_recorded',
+    'gates': ['orphan_late_calls', 'focused_lock_pairs', 'base_exception_late_calls', 'primed_straggler_runs', 'complex_stragglers', 'complex_straggler_after_close', 'late_calls', 'root_late_calls', 'straggler_schedules', 'straggler_ok_recorded',
               'straggler_rejected', 'straggler_single_layers', 'next_build_probes'],
 }
 
@@ -196,6 +196,91 @@ def run_base_exception_cases(sh):
                 if 'b' in stash:
                     late_calls('after-build')
                 sh.nt(('base-exc', owner, exc_cls.__name__))
+
+
+def run_orphan_cases(sh):
+    """two exits at once: a thread calls build_file on a subbuild's builder; the subbuild's function returns
+    (the parent record is closed) while the build_file function G is still running; then G leaves with an
+    Exception or with a BaseException that is not an Exception.  The builder that was passed to G is fenced
+    all the same.  Forced with events; fence only."""
+    import threading
+    from ..env import FileBuilder
+
+    class Boom(Exception):
+        pass
+    for exc_cls in (None, Boom, SystemExit, KeyboardInterrupt, _BaseBoom):
+        with Scratch('o') as sc:
+            sb = sc.sb
+            probe = os.path.join(sb, 'probe')
+            env.write_file(probe, b'probe')
+            stash, res = {}, {}
+            g_started, owner_done = threading.Event(), threading.Event()
+
+            def g(b2, filename):
+                stash['g'] = b2
+                env.write_file(filename, b'g')
+                b2.is_file(probe)
+                g_started.set()
+                owner_done.wait(10)
+                if exc_cls is not None:
+                    raise exc_cls()
+
+            def worker(b):
+                try:
+                    b.build_file(os.path.join(sb, 'o', 'x'), 'G', g)
+                    res['t'] = 'returned'
+                except BaseException as e:  # noqa
+                    res['t'] = type(e).__name__
+
+            def s_fn(b):
+                t = threading.Thread(target=worker, args=(b,), daemon=True)
+                stash['thread'] = t
+                t.start()
+                g_started.wait(10)
+                return 1        # the owner returns while G is still running
+
+            def root(b):
+                b.subbuild('S', s_fn)
+                owner_done.set()
+                stash['thread'].join(10)
+                return late('inside-build')
+
+            def late(when):
+                bad = []
+
+                class Ctx:
+                    @staticmethod
+                    def ap(r):
+                        return os.path.join(sb, r) if r else sb
+                if 'g' not in stash:
+                    return None
+                for m in METHODS:
+                    invoked = []
+                    path = 'probe' if 'build_file' not in m else 'late/%s_%s' % (when, m[:12])
+                    try:
+                        call_method(Ctx, stash['g'], m, path, invoked)
+                        out = 'ok'
+                    except RuntimeError:
+                        out = 'RuntimeError'
+                    except BaseException as e:  # noqa
+                        out = e.__class__.__name__
+                    sh.count('orphan_late_calls')
+                    sh.evaluations += 1
+                    if out != 'RuntimeError' or invoked:
+                        bad.append((m, out, bool(invoked)))
+                if bad:
+                    sh.violation('builder_usable_after_exit_under_closed_parent|%s' % bad[0][0],
+                                 {'exception': getattr(exc_cls, '__name__', 'returned'), 'when': when, 'calls': bad[:5],
+                                  'thread_outcome': res.get('t')},
+                                 {'kind': 'c17-orphan', 'exception': getattr(exc_cls, '__name__', 'returned')})
+                return None
+            try:
+                FileBuilder.build(os.path.join(sb, 'cache.gz'), 'n', root)
+            except BaseException:   # noqa
+                pass
+            owner_done.set()
+            late('after-build')
+            sh.nt(('orphan', getattr(exc_cls, '__name__', 'returned'), res.get('t')))
 
 
 # ------------------------------------------------------------------ (b) stragglers
@@ -395,6 +480,8 @@ def run_shard(sh):
         run_sequential(sh, rng)
     if sh.idx % 4 == 1:
         run_base_exception_cases(sh)
+    if sh.idx % 4 == 2:
+        run_orphan_cases(sh)
     combos = [(o, m) for o in ('sb', 'bf', 'sb-raises', 'root') for m in QUERY_METHODS] + \
         [(o + '+p', m) for o in ('sb', 'bf', 'sb-raises', 'root') for m in QUERY_METHODS] + \
         [(o, m) for o in ('sb-bare', 'bf-bare') for m in QUERY_METHODS] + \
